@@ -1869,13 +1869,34 @@ class Compiler:
 
         assignment = self._engine(node.expression, store("__macro"))
 
+        # The macro is told which fillers it was offered. Fillers that
+        # were offered to the enclosing macro are hidden from a macro
+        # used in its body (they are passed on only when extending).
+        keys = ast.Tuple(
+            elts=[ast.Constant("__slot_%s" % mangle(slot.name))
+                  for slot in node.slots],
+            ctx=ast.Load(),
+        )
+        offer = template("__econtext = econtext.copy()")
+        if node.extend:
+            offer += template(
+                "__econtext['__slots__'] = get('__slots__', ()) + KEYS",
+                KEYS=keys)
+        else:
+            offer += template(
+                "for __key in get('__slots__', ()):\n"
+                "    if __key not in KEYS: __econtext[__key] = DEQUE()",
+                KEYS=keys, DEQUE=Symbol(collections.deque))
+            offer += template("__econtext['__slots__'] = KEYS", KEYS=keys)
+
         return (
             callbacks +
             assignment +
             [TokenRef(node.expression.value)] +
             template("__m = __macro.include") +
+            offer +
             self._call_and_merge_globals(template(
-                "__m(__stream, econtext.copy(), "
+                "__m(__stream, __econtext, "
                 "rcontext, __i18n_domain, __i18n_context, target_language)"
             )) +
             cleanup
